@@ -499,6 +499,68 @@ def preserving_variants(sources):
     yield 'P6b comprehensions to accumulate loops', apply(lambda t: _CompToLoop().visit(t))
 
 
+# ---------------------------------------------------------------------------------------------------- seeded changes as variants
+SEED_MISSES = {'C18-1': 'breaks only the clause C18 declares not decided (digit arithmetic of FloatPrecision.exponent)'}
+
+
+def apply_unified_diff(sources, diff_text):
+    """apply a `git diff` to the in-memory sources (exact match of each hunk's old block); returns new sources or None"""
+    out = dict(sources)
+    cur = None; hunks = {}
+    for line in diff_text.splitlines():
+        if line.startswith('+++ '):
+            path = line[4:].strip()
+            path = path[2:] if path.startswith('b/') else path
+            cur = path.split('src/CircuitCalculator/', 1)[1] if 'src/CircuitCalculator/' in path else None
+            if cur is not None: hunks[cur] = []
+        elif line.startswith('@@') and cur is not None:
+            hunks[cur].append(([], []))
+        elif cur is not None and hunks.get(cur) and not line.startswith(('--- ', 'diff ', 'index ', 'new file', 'deleted file', '\\')):
+            old, new = hunks[cur][-1]
+            if line.startswith('+'): new.append(line[1:])
+            elif line.startswith('-'): old.append(line[1:])
+            else:
+                old.append(line[1:] if line.startswith(' ') else line); new.append(line[1:] if line.startswith(' ') else line)
+    for rel, hs in hunks.items():
+        src = out.get(rel)
+        if src is None: return None
+        for old, new in hs:
+            o = '\n'.join(old); n = '\n'.join(new)
+            if o and o in src: src = src.replace(o, n, 1)
+            elif o.rstrip('\n') in src: src = src.replace(o.rstrip('\n'), n.rstrip('\n'), 1)
+            else: return None
+        out[rel] = src
+    return out
+
+
+def seed_variants(pid, sources):
+    import glob, json
+    here = os.path.dirname(os.path.dirname(os.path.abspath(__file__)))
+    for d in sorted(glob.glob(os.path.join(here, 'seeded', f'{pid}-*'))):
+        name = os.path.basename(d)
+        try:
+            s2 = apply_unified_diff(sources, open(os.path.join(d, 'patch.diff')).read())
+        except OSError:
+            continue
+        yield name, s2
+
+
+def _one_seed(args):
+    pid, name, s2 = args
+    if s2 is None: return (pid, name, 'skipped', 'patch does not apply to the current tree')
+    for rel, src in s2.items():
+        try: compile(src, rel, 'exec')
+        except SyntaxError as e: return (pid, name, 'skipped', f'does not compile: {e}')
+    rep = _run_rules(pid, s2)
+    known = {(k.get('rule'), k.get('key')) for k in rep.known}
+    hits = [o for o in rep.obs if o['verdict'] == REFUTED and (o['rule'], o['key']) not in known]
+    if hits: return (pid, name, 'caught', f"{hits[0]['rule']} {hits[0]['key']}")
+    if name in SEED_MISSES: return (pid, name, 'documented-miss', SEED_MISSES[name])
+    unk = [o for o in rep.obs if o['verdict'] == UNKNOWN]
+    if rep.errors or unk: return (pid, name, 'undecided', (rep.errors + [f"{o['rule']} {o['key']}" for o in unk])[0][:160])
+    return (pid, name, 'MISSED', '')
+
+
 # ---------------------------------------------------------------------------------------------------- runner
 def _load_sources(repo_src):
     return Program(repo_src).sources
@@ -562,9 +624,12 @@ def run_selftest(pid, repo_src, rep, jobs=None):
     btasks = [(p, n, rel, old, new, rule, sources) for p, n, rel, old, new, rule in B if p == pid]
     ptasks = [(pid, n, s, base) for n, s in preserving_variants(sources)]
     t0 = time.time()
+    stasks = [(pid, n, s2) for n, s2 in seed_variants(pid, sources)]
     with ProcessPoolExecutor(max_workers=jobs) as ex:
         bres = list(ex.map(_one_breaking, btasks))
         pres = list(ex.map(_one_preserving, ptasks))
+        sres = list(ex.map(_one_seed, stasks))
+    bres += sres
     stats = {'breaking': len(bres), 'caught': sum(1 for r in bres if r[2] in ('caught', 'caught-elsewhere')), 'skipped': sum(1 for r in bres if r[2] == 'skipped'),
              'undecided': sum(1 for r in bres if r[2] == 'undecided'), 'missed': sum(1 for r in bres if r[2] == 'MISSED'),
              'preserving': len(pres), 'silent': sum(1 for r in pres if r[2] == 'silent'), 'wall_s': round(time.time() - t0, 1)}
